@@ -39,6 +39,7 @@ type Runner struct {
 	hidden       map[int]bool // objects that sat at or below a block in which corruption was detected (until re-uploaded)
 	discards     *discardReader
 	discardsSeen float64
+	corruptions  int // detections so far
 }
 
 func (r *Runner) oracle(prop, what, detail string) {
@@ -269,6 +270,20 @@ func (r *Runner) stepOp(id int) {
 
 func (r *Runner) finishPut(op *pendingOp, reply string) {
 	delete(r.pending, op.id)
+	if reply == "ok" && op.copied && r.st.Cfg.Kind != "ac" && r.corruptions > op.corruptionsAtStart && r.discards.total() == op.discardsAtStart {
+		// a detection happened while this upload was in flight: if the upload is acknowledged, what it stored or
+		// referred to must not lie in the quarantined range, i.e. the object resolves now
+		resolves := false
+		if r.hier() {
+			resolves = r.storedUnderPrefix(op.obj)
+		} else {
+			_, resolves = r.location(op.obj)
+		}
+		if !resolves {
+			r.oracle("C08", "an upload that was in flight when corruption was detected was acknowledged although the object does not resolve (quarantined block)",
+				fmt.Sprintf("put of object %d", op.obj))
+		}
+	}
 	if reply == "ok" {
 		if !op.copied {
 			r.oracle("C01", "an upload whose data does not match its digest or whose source failed was acknowledged",
@@ -849,7 +864,92 @@ func (r *Runner) location(obj int) (int64, bool) {
 }
 
 // corrupt makes the medium return a flipped byte for the next data read and reads obj.
+// newestLocation: hierarchical stores - the newest absolute block any index entry that a read of obj may consult
+// (the keys of all component-wise prefixes of its instance name and the canonical key) currently resolves to.
+func (r *Runner) newestLocation(obj int) (int64, bool) {
+	d := r.Digest(obj)
+	inst := r.objs[obj].Instance
+	keys := []string{d.GetKey(digest.KeyWithoutInstance)}
+	prefixes := []string{""}
+	if inst != "" {
+		cs := strings.Split(inst, "/")
+		for i := range cs {
+			prefixes = append(prefixes, strings.Join(cs[:i+1], "/"))
+		}
+	}
+	for _, p := range prefixes {
+		keys = append(keys, digest.MustNewDigest(p, d.GetDigestFunction().GetEnumValue(), d.GetHashString(), d.GetSizeBytes()).GetKey(digest.KeyWithInstance))
+	}
+	r.st.Lock.RLock()
+	defer r.st.Lock.RUnlock()
+	best, found := int64(-1), false
+	for _, k := range keys {
+		if l, err := r.st.KLM.Get(local.NewKeyFromString(k)); err == nil {
+			if a := int64(l.BlockIndex) + r.st.Alloc.Releases.Load(); a > best {
+				best, found = a, true
+			}
+		}
+	}
+	return best, found
+}
+
+// corruptHier: a read of obj from a hierarchical store during which the medium returns a flipped byte.
+func (r *Runner) corruptHier(obj int) {
+	if !r.storedUnderPrefix(obj) {
+		return
+	}
+	before := map[int]int64{}
+	for o := range r.objs {
+		if a, ok := r.newestLocation(o); ok {
+			before[o] = a
+		}
+	}
+	id := r.nextOp
+	r.nextOp++
+	reads := r.st.Dev.Reads
+	r.st.Dev.CorruptReads = 1
+	kind, _ := consume(r.st.BA.Get(context.Background(), r.Digest(obj)))
+	touched := r.st.Dev.CorruptReads == 0 && r.st.Dev.Reads > reads
+	r.st.Dev.CorruptReads = 0
+	ck, lks := r.hierKeys(obj)
+	reply := r.m(fmt.Sprintf("hget.begin %d %d %s", id, ck, joinInts(lks)), "-")
+	if !touched {
+		// the read never touched the medium (the refresh reservation failed, ...): an ordinary Get
+		r.cmp(reply, kind, "hget")
+		r.state()
+		return
+	}
+	if reply == "refresh" {
+		r.m(fmt.Sprintf("corrupt-op %d", id), "ok")
+		r.m(fmt.Sprintf("abort %d", id), "ok")
+	} else {
+		r.m("hcorrupt "+joinInts(lks), "ok")
+	}
+	if kind != "err integrity" {
+		r.oracle("C08", "a read of corrupted data did not fail with INTERNAL", fmt.Sprintf("Get of object %d -> %s", obj, kind))
+	}
+	// the block that was actually read, from the device offset of the corrupted read
+	bs := int64(r.st.Cfg.BM.BlockSize())
+	abs, ok := r.st.Alloc.SlotAbs[r.st.Dev.FirstCorruptOff/bs*bs]
+	if !ok {
+		r.state()
+		return
+	}
+	r.corrupted = true
+	r.corruptions++
+	for o, a := range before {
+		if a <= abs {
+			r.hidden[o] = true
+		}
+	}
+	r.state()
+}
+
 func (r *Runner) corrupt(obj int) {
+	if r.st.Dev != nil && r.hier() && r.objs[obj].Size > 0 {
+		r.corruptHier(obj)
+		return
+	}
 	if r.st.Dev == nil || r.hier() || r.st.Cfg.Kind == "ac" || r.objs[obj].Size == 0 {
 		return
 	}
@@ -887,6 +987,7 @@ func (r *Runner) corrupt(obj int) {
 		r.oracle("C08", "a read of corrupted data did not fail with INTERNAL", fmt.Sprintf("Get of object %d -> %s", obj, kind))
 	}
 	r.corrupted = true
+	r.corruptions++
 	for o, a := range before {
 		if a <= abs {
 			r.hidden[o] = true
